@@ -25,4 +25,27 @@ def PublishedValid {β : Type} (valid : State β → Bool) (sm : SM β) : Prop :
 def Coherent {β : Type} (empty : State β) (sm : SM β) : Prop :=
   (sm.published.rev ≠ 0 ∧ sm.file = some sm.published) ∨ (sm.published = empty ∧ sm.file = none)
 
+/-- **The contract the batch theorems need from `applyMutation`** (guards +
+    handler), as a property of an arbitrary function of (candidate state, raft
+    index, command) — it has no access to the published state, so its outcome is
+    independent of it by construction:
+    * `Noop`/`Rejected` ⇒ the candidate state is returned UNCHANGED;
+    * `Changed` ⇒ revision + 1, applied index kept (or, on an uninitialised
+      candidate, the initial state: revision 1, applied index = the entry's index);
+    * `Updated` ⇒ revision and applied index kept. -/
+def MutateContract {β κ : Type} (mutate : State β → Nat → κ → State β × Outcome) : Prop :=
+  ∀ s idx c,
+    ((mutate s idx c).1 = s ∧ ((∃ r, (mutate s idx c).2 = .rejected r) ∨ (∃ r, (mutate s idx c).2 = .noop r))) ∨
+    (∃ cand, mutate s idx c = (⟨s.rev + 1, s.applied, cand⟩, .changed)) ∨
+    (∃ cand, mutate s idx c = (⟨s.rev, s.applied, cand⟩, .updated)) ∨
+    (∃ body, s.rev = 0 ∧ mutate s idx c = (⟨1, idx, body⟩, .changed))
+
+/-- before init a command leaves the candidate alone or initialises it at its own index -/
+def UninitContract {β κ : Type} (mutate : State β → Nat → κ → State β × Outcome) : Prop :=
+  ∀ s idx c, s.rev = 0 → (mutate s idx c).1 = s ∨ ((mutate s idx c).1.rev ≠ 0 ∧ (mutate s idx c).1.applied = idx)
+
+/-- every state a command produces passed `Validate` -/
+def ValidContract {β κ : Type} (valid : State β → Bool) (mutate : State β → Nat → κ → State β × Outcome) : Prop :=
+  ∀ s idx c, (mutate s idx c).1 = s ∨ valid (mutate s idx c).1 = true
+
 end WK.C18
